@@ -5,12 +5,26 @@ reused) on a build description with four shell commands that take the same direc
   d/  (tree) · ./d/ (tree, filtered) · ././d/ (structure) · ./././d/ (structure, filtered)
 and append to a side-effect log when they run.  Between builds the tree is edited (add / remove / rename / retype /
 content / mtime / chmod / symlink retarget, single and compound, any depth).  All mtimes are stamped from a logical
-clock (a directory whose entry set changed gets a fresh stamp, as a kernel with a fine clock would).
+clock.  In the first stream ("h" histories) a directory whose entry set changed gets a fresh stamp, as a kernel with a
+fine clock would.  The second stream ("s" histories, own RNG stream) drops that discipline: entry-set edits (add file /
+add dir / remove / rename / move, any depth) are also made in a RESTORE flavour that puts the directory's mtime back to
+its previous logical stamp (`cp -a`, `rsync -a`, `tar -x`, `touch -r`, coarse timestamps), same-size content rewrites
+with and without a new mtime, and the workspaces use all three `client: file-system:` modes (default, device-agnostic,
+checksum-only).  "Stat record unchanged" is never assumed: it is what the python observer sees (the record in the
+view of the workspace's file-system mode is compared with the one at the previous build).
 
 Property oracle (python, independent of the Lean model): a command re-executes iff its observation of the tree
 (`observe` / `observeStruct`: per node name + stat record resp. mode, per directory the filtered sorted listing,
 every depth; libc fnmatch through ctypes) changed since the previous build; the first build runs all four; a null
-rebuild runs nothing.
+rebuild runs nothing.  The stat record is taken in the view of the file-system mode (device-agnostic: device/inode
+zeroed; checksum-only: device/inode/mtime zeroed, MD5 of the content resp. the constant directory checksum added).
+
+Known defect F57 (stale filtered listing): `FilteredDirectoryContents` has no validity check of its own and is only
+re-listed when `Node(dir)` / `Stat(dir)` change.  The oracle stays the property text; a second, "tool view" walk
+emulates exactly that defect (a filtered listing is refreshed iff the directory's record differs from the one at the
+tool's last visit) ONLY to classify a failure: kind `stale-filtered-listing` iff the variant is filtered, the tool's
+behaviour contradicts the property oracle and equals the tool-view prediction; everything else keeps the kinds
+`missed-rerun` / `spurious-rerun`.
 
 Correspondence: the 64-bit signature values the real tool stored in its database are compared bit-for-bit with
 `HashTerm.eval` of the Lean model's `treeSig` / `structSig` (driver mode c12sig) on the same tree.
@@ -19,8 +33,8 @@ Observability of `mode`: `FileInfo::operator==` does not compare `mode` (C13_eq_
 recomputed when device/inode/size/mtime change; the recorded `mode` is the one seen at that time ("sticky").  The
 oracle models this exactly and counts permission-only edits separately (`distribution.mode_only_edits`).
 """
-import ctypes, ctypes.util, json, os, shutil, sqlite3, stat, struct, subprocess, threading
-from concurrent.futures import ThreadPoolExecutor
+import ctypes, ctypes.util, glob, hashlib, json, os, shutil, sqlite3, stat, struct, subprocess, threading
+from concurrent.futures import ProcessPoolExecutor
 from .. import common as C
 from ..runner import PropertyCheck
 
@@ -48,6 +62,8 @@ VARIANTS = [  # (index, node name, root path as hashed, structure?, filtered?)
     (2, "././d/", "././d", True, False),
     (3, "./././d/", "./././d", True, True),
 ]
+# does the Lean model's stat record carry the checksum (needed for bit-exact signatures in checksum-only workspaces)?
+MODEL_HAS_CHECKSUM = True
 PATTERN_SETS = [[b"*.tmp"], [b"*.o", b"k*"], [b"?"], [b"[ab]*", b"*.tmp"], [b"sub"], [b"*"], [b"nomatch"]]
 NAMES = [b"a", b"b", b"c", b"k.tmp", b"x.o", b"sub", b"z z", b".hid", b"\xc3\xbc", b"ab", b"B", b"k", b"t.tmp.x", b"sub2"]
 
@@ -56,9 +72,13 @@ def yaml_str(b):
     return '"' + b.decode("latin-1").replace("\\", "\\\\").replace('"', '\\"') + '"'
 
 
-def build_file(patterns):
+FS_MODES = ["default", "device-agnostic", "checksum-only"]     # the values BuildSystemFileDelegate::configureClient accepts
+
+
+def build_file(patterns, fs_mode="default"):
     pats = "[" + ", ".join(yaml_str(p) for p in patterns) + "]"
-    out = ["client:", "  name: basic", "", "targets:", '  "": ["<all>"]', "", "nodes:"]
+    out = ["client:", "  name: basic"] + (["  file-system: " + fs_mode] if fs_mode != "default" else [])
+    out += ["", "targets:", '  "": ["<all>"]', "", "nodes:"]
     for idx, node, _, structure, filtered in VARIANTS:
         out.append('  "%s":' % node)
         out.append("    is-directory-structure: true" if structure else "    is-directory: true")
@@ -75,10 +95,12 @@ def build_file(patterns):
 # a workspace: real files + logical clock
 # ----------------------------------------------------------------------------------------------
 class WS:
-    def __init__(self, root, patterns, exe):
-        self.root, self.patterns, self.exe = root, patterns, exe
+    def __init__(self, root, patterns, exe, fs_mode="default"):
+        self.root, self.patterns, self.exe, self.fs_mode = root, patterns, exe, fs_mode
         self.clock = 1000
         self.mt = {}            # relative path (bytes) -> logical mtime (seconds)
+        self.keep = False       # RESTORE flavour: an entry-set edit leaves the directory's logical stamp as it was
+        self.ops = []           # primitive operations since the last take_ops() (exact replay / corpus format)
         shutil.rmtree(root, ignore_errors=True)
         os.makedirs(os.path.join(root, "ext", "dirT"))
         for n, body in (("t1", b"1"), ("t2", b"22")):
@@ -89,9 +111,14 @@ class WS:
         for p in ("ext/t1", "ext/t2", "ext/dirT/inner", "ext/dirT"):
             os.utime(os.path.join(root, p), ns=(500 * 10**9, 500 * 10**9))
         with open(os.path.join(root, "build.llbuild"), "w", encoding="latin-1") as f:
-            f.write(build_file(patterns))
+            f.write(build_file(patterns, fs_mode))
         self.sticky = [dict() for _ in VARIANTS]
         self.prev_obs = [None] * len(VARIANTS)
+        self.prev_dirs = [None] * len(VARIANTS)
+        # tool view (defect model F57, filtered variants only)
+        self.tool_sticky = [dict() for _ in VARIANTS]
+        self.tool_state = [dict() for _ in VARIANTS]      # key path -> (record at the tool's last visit, listing it holds)
+        self.prev_tool_obs = [None] * len(VARIANTS)
 
     def p(self, rel):
         return os.path.join(self.root.encode(), rel)
@@ -100,8 +127,17 @@ class WS:
         self.clock += 1
         return self.clock
 
+    def op(self, *a):
+        self.ops.append([x.decode("latin-1") if isinstance(x, bytes) else x for x in a])
+
+    def take_ops(self):
+        o, self.ops = self.ops, []
+        return o
+
     def touch_dir(self, rel):
         """the entry set of directory `rel` changed"""
+        if self.keep:
+            return              # ... and its mtime is put back to the previous logical stamp (restamp() does it)
         self.mt[rel] = self.tick()
 
     def restamp(self):
@@ -113,22 +149,26 @@ class WS:
 
     # --- primitive edits (all relative paths are bytes beneath b"d") ---
     def mkfile(self, rel, body):
+        self.op("mkfile", rel, body, self.keep)
         with open(self.p(rel), "wb") as f:
             f.write(body)
         self.mt[rel] = self.tick()
         self.touch_dir(os.path.dirname(rel))
 
     def mkdir(self, rel):
+        self.op("mkdir", rel, self.keep)
         os.mkdir(self.p(rel))
         self.mt[rel] = self.tick()
         if rel != b"d":
             self.touch_dir(os.path.dirname(rel))
 
     def mklink(self, rel, target):
+        self.op("mklink", rel, target, self.keep)
         os.symlink(target, self.p(rel))
         self.touch_dir(os.path.dirname(rel))
 
     def remove(self, rel):
+        self.op("remove", rel, self.keep)
         fp = self.p(rel)
         if os.path.isdir(fp) and not os.path.islink(fp):
             shutil.rmtree(fp)
@@ -139,12 +179,54 @@ class WS:
         self.touch_dir(os.path.dirname(rel))
 
     def rename(self, rel, new):
+        self.op("rename", rel, new, self.keep)
         os.rename(self.p(rel), self.p(new))
         for k in [k for k in self.mt if k == rel or k.startswith(rel + b"/")]:
             self.mt[new + k[len(rel):]] = self.mt.pop(k)
         self.touch_dir(os.path.dirname(rel))
         if os.path.dirname(new) != os.path.dirname(rel):
             self.touch_dir(os.path.dirname(new))
+
+    def append(self, rel):
+        self.op("append", rel)
+        with open(self.p(rel), "ab") as f:
+            f.write(b"+")
+        self.mt[rel] = self.tick()
+
+    def rewrite(self, rel, body, keep_mtime):
+        """replace the content by `body` (the callers keep the size); with keep_mtime the logical stamp stays"""
+        self.op("rewrite", rel, body, keep_mtime)
+        with open(self.p(rel), "r+b") as f:
+            f.truncate(0)
+            f.write(body)
+        if not keep_mtime:
+            self.mt[rel] = self.tick()
+
+    def stamp(self, rel):
+        self.op("stamp", rel)
+        self.mt[rel] = self.tick()
+
+    def chmod(self, rel, mode):
+        self.op("chmod", rel, mode)
+        os.chmod(self.p(rel), mode)
+
+    def relink(self, rel, target):
+        self.op("relink", rel, target, self.keep)
+        os.unlink(self.p(rel))
+        os.symlink(target, self.p(rel))
+        self.touch_dir(os.path.dirname(rel))
+
+    def apply_op(self, o):
+        """one primitive operation in the replay / corpus format (see take_ops)"""
+        name, args = o[0], [x.encode("latin-1") if isinstance(x, str) else x for x in o[1:]]
+        keeps = {"mkfile": 2, "mkdir": 1, "mklink": 2, "remove": 1, "rename": 2, "relink": 2}
+        if name in keeps:
+            self.keep = bool(args[keeps[name]])
+            args = args[:keeps[name]]
+        try:
+            getattr(self, name)(*args)
+        finally:
+            self.keep = False
 
     # --- inspection ---
     def walk(self):
@@ -166,43 +248,80 @@ class WS:
         return out
 
     def stat(self, rel):
+        """the stat record as `getFileSystem().getFileInfo(path)` of the workspace's file-system mode reports it
+        (lib/Basic/FileSystem.cpp, include/llbuild/Basic/FileSystem.h, FileInfo.cpp), read independently of the tool:
+        (device, inode, mode, size, mtime s, mtime ns, checksum bytes)"""
         try:
             st = os.stat(self.p(rel))
         except OSError:
             return None
-        return (st.st_dev, st.st_ino, st.st_mode, st.st_size, st.st_mtime_ns // 10**9, st.st_mtime_ns % 10**9)
+        dev, ino, sec, ns, ck = st.st_dev, st.st_ino, st.st_mtime_ns // 10**9, st.st_mtime_ns % 10**9, b""
+        if self.fs_mode != "default":
+            dev = ino = 0
+        if self.fs_mode == "checksum-only":
+            sec = ns = 0
+            if stat.S_ISDIR(st.st_mode):
+                ck = b"\x01" + b"\0" * 31
+            else:
+                try:
+                    with open(self.p(rel), "rb") as f:
+                        ck = hashlib.md5(f.read()).digest() + b"\0" * 16
+                except OSError:
+                    ck = b"\0" * 32
+        return (dev, ino, st.st_mode, st.st_size, sec, ns, ck)
 
     def hidden(self, name, filtered):
         return filtered and any(fnmatch(p, name) for p in self.patterns)
 
-    def observe(self, vidx):
-        """(observation for the oracle, tree tokens for the Lean driver, hidden names) of variant vidx.
-        Applies the sticky-mode rule and updates the sticky state of that variant."""
+    def observe(self, vidx, tool=False):
+        """(observation, tree tokens for the Lean driver, hidden names, {key path: (record, visible sorted listing)})
+        of variant vidx.  Applies the sticky-mode rule and updates the sticky state of that variant.
+        tool=False: the property's observation of the file system as it is.
+        tool=True: what the tool can see under defect F57 — the listing of a directory is the one taken at the
+        tool's last visit unless the directory's record (any field) differs from the one at that visit, or the tool has
+        since seen the path missing / as a non-directory; a listed name that no longer exists is a missing child."""
         _, _, hpath, structure, filtered = VARIANTS[vidx]
-        sticky = self.sticky[vidx]
+        sticky = (self.tool_sticky if tool else self.sticky)[vidx]
+        state = self.tool_state[vidx]
         hidden_names = set()
+        dirs = {}
 
         def info(keypath, rel):
             st = self.stat(rel)
             if st is None:
                 sticky.pop(keypath, None)
-                return None
-            keyf = (st[0], st[1], st[3], st[4], st[5])
+                return None, None
+            keyf = (st[0], st[1], st[3], st[4], st[5], st[6])
             old = sticky.get(keypath)
             mode = old[1] if old is not None and old[0] == keyf else st[2]
             sticky[keypath] = (keyf, mode)
-            return (st[0], st[1], mode, st[3], st[4], st[5])
+            return (st[0], st[1], mode, st[3], st[4], st[5]) + ((st[6],) if st[6] else ()), st
+
+        def nums_of(i):
+            return [str(x) for x in i[:6]] + (["c" + i[6].hex()] if len(i) > 6 else [])
 
         def rec(keypath, rel, is_root):
-            i = info(keypath, rel)
+            i, raw = info(keypath, rel)
             if i is None:
+                if tool:
+                    state.pop(keypath, None)
                 return ("leaf", None), ["L", "-"]
-            nums = [str(x) for x in i]
+            nums = nums_of(i)
             if not stat.S_ISDIR(i[2]):
+                if tool:
+                    state.pop(keypath, None)
                 o = ("leaf", i[2] if structure else i)
                 return o, ["F"] + nums
             kids, toks = [], []
             entries = os.listdir(self.p(rel))          # directory order, as the model's Tree has it
+            visible = tuple(sorted(n for n in entries if not self.hidden(n, filtered)))
+            dirs[keypath] = (raw, visible)
+            if tool:
+                old = state.get(keypath)
+                if old is not None and old[0] == raw:
+                    entries = list(old[1])             # not re-listed: Node(dir) and Stat(dir) are unchanged
+                else:
+                    state[keypath] = (raw, visible)
             n_listed = 0
             for n in entries:
                 if self.hidden(n, filtered):
@@ -220,7 +339,7 @@ class WS:
             own = None if (is_root and filtered) else (i[2] if structure else i)
             return ("dir", own, tuple(kids)), ["D"] + nums + [str(n_listed)] + toks
         o, toks = rec(hpath.encode(), b"d", True)
-        return o, toks, sorted(hidden_names)
+        return o, toks, sorted(hidden_names), dirs
 
     def build(self):
         cmd = [self.exe, "buildsystem", "build", "--serial", "-C", self.root, "--db", "build.db", "-f", "build.llbuild"]
@@ -353,18 +472,28 @@ def apply_edit(ws, rng, kind):
         if not files:
             return None
         r = rng.choice(files)
-        with open(ws.p(r), "ab") as f:
-            f.write(b"+")
-        ws.mt[r] = ws.tick()
+        ws.append(r)
+    elif kind == "rewrite":               # second stream only: new content of the SAME size, with or without a new mtime
+        cands = [f for f in files if os.path.getsize(ws.p(f)) > 0]
+        if not cands:
+            return None
+        r = rng.choice(cands)
+        with open(ws.p(r), "rb") as f:
+            old = f.read()
+        body = bytes([(old[0] + 1 + rng.below(200)) % 256]) + old[1:]
+        keep_mtime = rng.chance(1, 2)
+        ws.rewrite(r, body, keep_mtime)
+        if keep_mtime:
+            r += b" [mtime kept]"
     elif kind == "mtime":
         cands = files + dirs
         r = rng.choice(cands)
-        ws.mt[r] = ws.tick()
+        ws.stamp(r)
     elif kind == "chmod":
         cands = files + [d for d in dirs if d != b"d"] + [b"d"]
         r = rng.choice(cands)
         m = stat.S_IMODE(os.stat(ws.p(r)).st_mode)
-        os.chmod(ws.p(r), m ^ 0o010)
+        ws.chmod(r, m ^ 0o010)
     elif kind == "relink":
         if not links:
             return None
@@ -372,12 +501,107 @@ def apply_edit(ws, rng, kind):
         old = os.readlink(ws.p(r))
         up = b"../" * depth_of(r)
         new = rng.choice([t for t in (up + b"ext/t1", up + b"ext/t2", b"nowhere") if t != old])
-        os.unlink(ws.p(r))
-        os.symlink(new, ws.p(r))
-        ws.touch_dir(os.path.dirname(r))
+        ws.relink(r, new)
     elif kind == "none":
         r = b""
     return kind + ":" + r.decode("latin-1")
+
+
+ENTRY_EDITS = ["add_file", "add_file", "add_dir", "remove", "rename", "move"]      # change a directory's entry set
+
+
+def apply_edit_s(ws, rng):
+    """second stream: half of the edits change an entry set and RESTORE the directory's stamp"""
+    r = rng.below(10)
+    if r < 5:
+        ws.keep = True
+        try:
+            e = apply_edit(ws, rng, rng.choice(ENTRY_EDITS))
+        finally:
+            ws.keep = False
+        return e + " [restore]" if e else None
+    if r < 6:
+        return apply_edit(ws, rng, "rewrite")
+    return apply_edit(ws, rng, rng.choice(EDITS[:-1]))
+
+
+def new_out(hid, ws):
+    return {"hid": hid, "builds": [], "failures": [], "lines": [], "edits": {}, "reruns": [0] * 4, "expected_reruns": [0] * 4,
+            "mode_only": 0, "nodes": len(ws.walk()), "fs_mode": ws.fs_mode, "restore_edits": 0,
+            "preserved": [0] * 4, "stale_decisions": 0, "script": {"init": ws.take_ops(), "builds": []}}
+
+
+def do_build(ws, out, edits, history, ident):
+    """stamp, run the real tool once, and judge the four commands against the property oracle"""
+    b = len(out["builds"])
+    out["script"]["builds"].append(ws.take_ops())
+    ws.restamp()
+    before = ws.log_sizes()
+    rc, txt = ws.build()
+    after = ws.log_sizes()
+    ran = [after[i] > before[i] for i in range(4)]
+    sigs = ws.db_signatures()
+    mode_only = bool(edits) and all(e.startswith("chmod:") for e in edits)
+    out["mode_only"] += 1 if mode_only else 0
+    kinds = sorted({e.split(":")[0] for e in edits})
+    flavours = sorted({"restore" if e.endswith(" [restore]") else "plain" for e in edits})
+    for idx, node, hpath, structure, filtered in VARIANTS:
+        o, toks, hidden, dirs = ws.observe(idx)
+        changed = ws.prev_obs[idx] is None or o != ws.prev_obs[idx]
+        ws.prev_obs[idx] = o
+        # directories (as this variant lists them) whose entry set changed while the python observer sees their
+        # stat record, in the view of the file-system mode, equal to the one at the previous build
+        pd = ws.prev_dirs[idx] or {}
+        preserved = sorted(k.decode("latin-1") for k, (raw, vis) in dirs.items() if k in pd and pd[k][0] == raw and pd[k][1] != vis)
+        ws.prev_dirs[idx] = dirs
+        out["preserved"][idx] += 1 if preserved else 0
+        tool_toks = None
+        tool_changed = changed
+        if filtered:
+            to, ttoks, _, _ = ws.observe(idx, tool=True)
+            tool_changed = ws.prev_tool_obs[idx] is None or to != ws.prev_tool_obs[idx]
+            ws.prev_tool_obs[idx] = to
+            if to != o:
+                tool_toks = ttoks
+                out["stale_decisions"] += 1
+        out["reruns"][idx] += 1 if ran[idx] else 0
+        out["expected_reruns"][idx] += 1 if changed else 0
+        base = {"variant": "structure" if structure else "tree", "filtered": filtered, "fs_mode": ws.fs_mode,
+                "edit_kinds": kinds, "edit_flavours": flavours, "stat_record_preserved": bool(preserved)}
+        inp = dict(ident, build=b, patterns=[p.decode("latin-1") for p in ws.patterns], fs_mode=ws.fs_mode,
+                   edits_so_far=list(history), script={"init": out["script"]["init"], "builds": list(out["script"]["builds"])},
+                   entry_set_changed_with_equal_stat_record=preserved)
+        if rc != 0 or ran[idx] != changed:
+            label = "%s (%s%s, file-system %s)" % (node, "structure" if structure else "tree", ", filtered" if filtered else "", ws.fs_mode)
+            if rc != 0:
+                kind, what = "build-failed", "build failed (exit %d): %s" % (rc, txt[-200:])
+            elif filtered and ran[idx] == tool_changed:
+                # the property is violated, and in exactly the way a filtered listing that is only refreshed when
+                # the directory's stat record changes predicts (F57)
+                kind = "stale-filtered-listing"
+                what = ("command with input %s %s although the observed tree %s: the filtered listing of a directory whose entry set "
+                        "changed under an unchanged stat record was not refreshed" % (
+                            label, "re-executed (late)" if ran[idx] else "did NOT re-execute", "changed" if changed else "did not change"))
+                base["effect"] = "missed-rerun" if changed else "late-rerun"
+            else:
+                kind = "missed-rerun" if changed else "spurious-rerun"
+                what = "command with input %s %s although the observed tree %s" % (
+                    label, "re-executed" if ran[idx] else "did NOT re-execute", "changed" if changed else "did not change")
+            out["failures"].append(dict(base, what=what, kind=kind, input=inp))
+        if idx in sigs:
+            def line(tk):
+                return "%s %d %s %s" % (C.hexs(hpath.encode()), 1 if filtered else 0,
+                                        ",".join(C.hexs(h) for h in hidden) if hidden else ".", " ".join(tk))
+            out["lines"].append((idx, b, line(toks), "%016x" % sigs[idx], line(tool_toks) if tool_toks else None, dict(base), inp))
+        elif rc == 0:
+            out["failures"].append(dict(base, what="no signature row for %s in the database" % node, kind="no-db-row", input=inp))
+    out["builds"].append((edits, ran))
+
+
+def drop_workspace(ws, out):
+    """keep the workspace of a history only for failures the F57 defect model does not explain"""
+    if all(f["kind"] == "stale-filtered-listing" for f in out["failures"]):
+        shutil.rmtree(ws.root, ignore_errors=True)
 
 
 def run_history(args):
@@ -386,8 +610,7 @@ def run_history(args):
     patterns = PATTERN_SETS[hid % len(PATTERN_SETS)]
     ws = WS(os.path.join(scratch, "h%d" % hid), patterns, exe)
     gen_tree(ws, rng, depth, fan, cap)
-    out = {"hid": hid, "builds": [], "failures": [], "lines": [], "edits": {}, "reruns": [0] * 4, "expected_reruns": [0] * 4,
-           "mode_only": 0, "nodes": len(ws.walk())}
+    out = new_out(hid, ws)
     history = []
     for b in range(nbuilds):
         edits = []
@@ -401,43 +624,65 @@ def run_history(args):
                         edits.append(e)
                         out["edits"][e.split(":")[0]] = out["edits"].get(e.split(":")[0], 0) + 1
                         break
-        ws.restamp()
         history.append(edits)
-        before = ws.log_sizes()
-        rc, txt = ws.build()
-        after = ws.log_sizes()
-        ran = [after[i] > before[i] for i in range(4)]
-        sigs = ws.db_signatures()
-        mode_only = bool(edits) and all(e.startswith("chmod:") for e in edits)
-        out["mode_only"] += 1 if mode_only else 0
-        for idx, node, hpath, structure, filtered in VARIANTS:
-            o, toks, hidden = ws.observe(idx)
-            changed = ws.prev_obs[idx] is None or o != ws.prev_obs[idx]
-            ws.prev_obs[idx] = o
-            out["reruns"][idx] += 1 if ran[idx] else 0
-            out["expected_reruns"][idx] += 1 if changed else 0
-            if rc != 0 or ran[idx] != changed:
-                out["failures"].append({
-                    "what": ("build failed (exit %d): %s" % (rc, txt[-200:])) if rc != 0 else
-                            ("command with input %s (%s%s) %s although the observed tree %s" % (
-                                node, "structure" if structure else "tree", ", filtered" if filtered else "",
-                                "re-executed" if ran[idx] else "did NOT re-execute", "changed" if changed else "did not change")),
-                    "variant": "structure" if structure else "tree", "filtered": filtered,
-                    "kind": "build-failed" if rc != 0 else ("missed-rerun" if changed else "spurious-rerun"),
-                    "edit_kinds": sorted({e.split(":")[0] for e in edits}),
-                    "input": {"history": hid, "build": b, "patterns": [p.decode("latin-1") for p in patterns],
-                              "edits_so_far": history, "seed": seed}})
-            if idx in sigs:
-                out["lines"].append((idx, b, "%s %d %s %s" % (C.hexs(hpath.encode()), 1 if filtered else 0,
-                                                              ",".join(C.hexs(h) for h in hidden) if hidden else ".",
-                                                              " ".join(toks)), "%016x" % sigs[idx]))
-            elif rc == 0:
-                out["failures"].append({"what": "no signature row for %s in the database" % node, "kind": "no-db-row",
-                                        "variant": "structure" if structure else "tree", "filtered": filtered,
-                                        "edit_kinds": [], "input": {"history": hid, "build": b}})
-        out["builds"].append((edits, ran))
-    if not out["failures"]:
-        shutil.rmtree(ws.root, ignore_errors=True)
+        do_build(ws, out, edits, history, {"history": hid, "stream": "h", "seed": seed})
+    drop_workspace(ws, out)
+    return out
+
+
+S_MODES = ["default", "checksum-only", "device-agnostic", "default", "checksum-only"]
+
+
+def run_history_s(args):
+    """second stream (own RNG stream): stat-preserving entry-set edits, same-size rewrites, all file-system modes"""
+    (hid, seed, exe, scratch, depth, fan, cap, nbuilds) = args
+    rng = C.Rng(seed, "C12/s%d" % hid)
+    patterns = PATTERN_SETS[(hid // len(S_MODES)) % len(PATTERN_SETS)]
+    ws = WS(os.path.join(scratch, "s%d" % hid), patterns, exe, S_MODES[hid % len(S_MODES)])
+    gen_tree(ws, rng, depth, fan, cap)
+    out = new_out("s%d" % hid, ws)
+    history = []
+    for b in range(nbuilds):
+        edits = []
+        if b > 0:
+            r = rng.below(10)
+            k = 0 if r == 0 else (1 if r < 7 else 2 + rng.below(3))
+            for _ in range(k):
+                for _try in range(4):
+                    e = apply_edit_s(ws, rng)
+                    if e:
+                        edits.append(e)
+                        key = e.split(":")[0] + ("+restore" if e.endswith(" [restore]") else "")
+                        out["edits"][key] = out["edits"].get(key, 0) + 1
+                        out["restore_edits"] += 1 if e.endswith(" [restore]") else 0
+                        break
+        history.append(edits)
+        do_build(ws, out, edits, history, {"history": "s%d" % hid, "stream": "s", "seed": seed})
+    drop_workspace(ws, out)
+    return out
+
+
+OP_KIND = {"mkfile": "add_file", "mkdir": "add_dir", "mklink": "add_link", "append": "content", "stamp": "mtime"}
+
+
+def run_script(args):
+    """a scripted history (corpus/C12/*.json, or the `script` of a replay file): exact primitive operations"""
+    (name, spec, exe, scratch) = args
+    patterns = [p.encode("latin-1") for p in spec["patterns"]]
+    ws = WS(os.path.join(scratch, "c-" + name), patterns, exe, spec.get("fs_mode", "default"))
+    for o in spec["script"]["init"]:
+        ws.apply_op(o)
+    out = new_out("corpus:" + name, ws)
+    out["script"]["init"] = spec["script"]["init"]
+    history = []
+    for ops in spec["script"]["builds"]:
+        for o in ops:
+            ws.apply_op(o)
+        edits = ["%s:%s%s" % (OP_KIND.get(o[0], o[0]), o[1], " [restore]" if (o[0] in ("mkfile", "mkdir", "mklink", "remove", "rename", "relink") and o[-1] is True) else "")
+                 for o in ops]
+        history.append(edits)
+        do_build(ws, out, edits, history, {"history": "corpus:" + name, "stream": "corpus"})
+    drop_workspace(ws, out)
     return out
 
 
@@ -456,7 +701,10 @@ class Check(PropertyCheck):
         "C12_tree_unchanged_is_current", "C12_struct_unchanged_is_current",
         "C12_up_to_date_is_current", "C12_delivered_is_current",
         "C12_tree_changed_never_up_to_date", "C12_struct_changed_never_up_to_date",
-        "C12_tree_unchanged_stays_current", "C12_struct_unchanged_stays_current"]]
+        "C12_tree_unchanged_stays_current", "C12_struct_unchanged_stays_current",
+        # Props/C12Stat.lean: the validity of the directory listing made explicit (re-listing check vs. trusting the stat record)
+        "C12_tree_changed_not_up_to_date_under_stat_discipline", "C12_struct_changed_not_up_to_date_under_stat_discipline",
+        "C12_relisting_view_is_the_file_system", "C12_filtered_as_coded_needs_stat_discipline"]]
     extractors = ["x_dirtree", "x_codec"]
     harnesses = []
     level = "proof"
@@ -464,9 +712,11 @@ class Check(PropertyCheck):
         "theorems are about pre-hash terms: llvm::hash_combine / hash_combine_range (64-bit) are NOT injective; equal terms <=> equal observations, distinct terms collide with probability ~2^-64",
         "libc fnmatch is the abstract parameter Cfg.fnmatch (the definition of 'matches'); the end-to-end check calls the same libc fnmatch through ctypes",
         "names returned by readdir are NUL-free and a listing packs into < 2^64 bytes (hypothesis `Listed`, the StringList precondition of C15)",
-        "rerun-iff on the engine (Props/C12Engine.lean) is proved for the directory tasks written as an Engine.Program (Lemmas/DirTreeEngine.lean: hand-written from BuildSystem.cpp, the request structure is the one x_dirtree compares textually); the directory listing is an input key there (the real (Filtered)DirectoryContentsTask reads the directory inside inputsAvailable and relies on its validity check resp. the directory's stat record to notice changes); input-key validity is full equality of the stat record (FileInfo== ignores mode, see below); the tie of that Program to the real tool is the end-to-end rerun oracle, not a trace replay",
+        "rerun-iff on the engine (Props/C12Engine.lean) is proved for the directory tasks written as an Engine.Program (Lemmas/DirTreeEngine.lean: hand-written from BuildSystem.cpp, the request structure is the one x_dirtree compares textually); the directory listing is an input key there, valid iff equal to the readdir slot: that is the unfiltered DirectoryContentsTask (isResultValid re-lists and compares) and the filtered task once it has the same check (F57); the filtered task AS CODED (IsValid = nullptr) shows the engine a stale view (Lemmas/DirTreeStat.lean staleEnv), for which the theorems hold under the explicit hypothesis StatDiscipline and fail without it (Props/C12Stat.lean); input-key validity is full equality of the stat record (FileInfo== ignores mode, see below); the tie of that Program to the real tool is the end-to-end rerun oracle, not a trace replay",
         "FileInfo::operator== ignores `mode` (C13_eq_iff): a permission-only change is not observable until another field of the same node changes; the oracle models this ('sticky mode')",
-        "a directory whose entry set changes gets a new mtime (the harness stamps it from a logical clock, as a kernel with a fine-grained clock does); symbolic links to an ancestor directory are not generated",
+        "NO directory-mtime discipline is assumed any more: the second stream changes entry sets and restores the directory's mtime, and runs all three file-system modes; 'stat record unchanged' is what the python observer measures on this file system (ext4: inode and size of a small directory do not move), never an assumption.  The first stream still re-stamps a directory whose entry set changed (a kernel with a fine-grained clock)",
+        "the F57 defect model inside the harness (tool view: a filtered listing is refreshed iff the directory's record differs from the one at the tool's last visit) is used ONLY to give a property failure of a filtered variant the kind stale-filtered-listing when the tool behaved exactly as that model predicts; it never turns a failure into a pass, and unfiltered variants are never classified by it",
+        "symbolic links to an ancestor directory are not generated",
     ]
     trusted_base = ["extractor x_dirtree (recipes of the two inputsAvailable bodies, request structure, filter polarity, sort order)",
                     "extractor x_codec (BuildValue / FileInfo wire format, C15)",
@@ -482,22 +732,46 @@ class Check(PropertyCheck):
             return ["lake", "env", "lean", "--run", "DriverC12.lean", "c12sig"], C.LEAN
         return None, None
 
+    def corpus(self, ctx):
+        """scripted histories run on every check: corpus/C12/*.json and, with --replay, the script of the replay file"""
+        specs = []
+        for f in sorted(glob.glob(os.path.join(C.VERIF, "corpus", "C12", "*.json"))):
+            with open(f) as fh:
+                specs.append((os.path.basename(f)[:-5], json.load(fh)))
+        rp = getattr(ctx, "replay_path", None)
+        if rp:
+            with open(rp) as fh:
+                r = json.load(fh)
+            inp = r.get("failure", r).get("input", {})
+            if "script" in inp:
+                specs.append(("replay", {"patterns": inp["patterns"], "fs_mode": inp.get("fs_mode", "default"), "script": inp["script"]}))
+        return specs
+
     def correspond(self, ctx, res):
         exe = os.path.join(C.BUILD, "plain", "bin", "llbuild")
         scratch = os.path.join(C.BUILD, "scratch", "c12-%d" % ctx.seed)
         shutil.rmtree(scratch, ignore_errors=True)
         os.makedirs(scratch, exist_ok=True)
         if ctx.thorough:
-            nh, depth, fan, cap, nb = 1400, 6, 6, 60, 10
+            nh, ns, depth, fan, cap, nb = 2000, 2000, 6, 6, 60, 10
         else:
-            nh, depth, fan, cap, nb = 300, 4, 4, 24, 8
+            nh, ns, depth, fan, cap, nb = 600, 600, 4, 4, 24, 8
         jobs = [(h, ctx.seed, exe, scratch, depth if h % 3 else 2, fan, cap, nb) for h in range(nh)]
-        with ThreadPoolExecutor(max_workers=16) as ex:
-            outs = list(ex.map(run_history, jobs))
+        jobs_s = [(h, ctx.seed, exe, scratch, depth if h % 4 else 2, fan, cap, nb) for h in range(ns)]
+        specs = self.corpus(ctx)
+        # processes, not threads: the python observer is CPU-bound (a thread pool is ~10x slower under the GIL)
+        with ProcessPoolExecutor(max_workers=16) as ex:
+            fc = [ex.submit(run_script, (name, spec, exe, scratch)) for name, spec in specs]
+            fs = [ex.submit(run_history_s, j) for j in jobs_s]
+            fh = [ex.submit(run_history, j) for j in jobs]
+            outs_c, outs_s, outs = [f.result() for f in fc], [f.result() for f in fs], [f.result() for f in fh]
         edits, lines = {}, []
         reruns, expected = [0] * 4, [0] * 4
         builds = mode_only = nodes = 0
-        for o in outs:
+        by_mode = {m: {"histories": 0, "decisions": 0, "expected_reruns": 0, "restore_edits": 0,
+                       "decisions_with_entry_set_change_under_equal_stat_record[tree,tree+filter,struct,struct+filter]": [0] * 4,
+                       "filtered_decisions_where_the_F57_defect_model_sees_a_stale_listing": 0} for m in FS_MODES}
+        for o in outs_c + outs_s + outs:
             for f in o["failures"]:
                 res.oracle_failures.append(f)
             for k, v in o["edits"].items():
@@ -509,44 +783,82 @@ class Check(PropertyCheck):
             mode_only += o["mode_only"]
             nodes += o["nodes"]
             lines += [(o["hid"],) + l for l in o["lines"]]
+            m = by_mode[o["fs_mode"]]
+            m["histories"] += 1
+            m["decisions"] += 4 * len(o["builds"])
+            m["expected_reruns"] += sum(o["expected_reruns"])
+            m["restore_edits"] += o["restore_edits"]
+            m["filtered_decisions_where_the_F57_defect_model_sees_a_stale_listing"] += o["stale_decisions"]
+            for i in range(4):
+                m["decisions_with_entry_set_change_under_equal_stat_record[tree,tree+filter,struct,struct+filter]"][i] += o["preserved"][i]
         res.evaluations += builds * 4
         res.distinct_nontrivial += sum(expected)
-        res.distribution.update({"histories": nh, "builds": builds, "edits": edits, "initial_tree_nodes_total": nodes,
+        res.distribution.update({"histories": nh, "histories_second_stream": ns, "corpus_histories": [n for n, _ in specs],
+                                 "builds": builds, "edits": edits, "initial_tree_nodes_total": nodes,
                                  "reruns_by_variant[tree,tree+filter,struct,struct+filter]": reruns,
                                  "expected_reruns_by_variant": expected, "mode_only_edit_builds": mode_only,
+                                 "by_file_system_mode": by_mode,
                                  "pattern_sets": [[p.decode("latin-1") for p in ps] for ps in PATTERN_SETS]})
         # bit-exact signature correspondence (model vs database rows)
         cmd, cwd = self.model_cmd()
-        sample = lines if ctx.thorough else lines[:12000]
+        if not MODEL_HAS_CHECKSUM:
+            lines = [l for l in lines if l[6].get("fs_mode") != "checksum-only"]
+        sample = lines
         if cmd is None:
             res.mismatches.append({"stream": "c12sig", "input": "model driver has no c12sig mode (Drv/C12 not integrated into Driver.lean)"})
         elif ctx.model_ok:
-            data = ("\n".join(l[3] for l in sample) + "\n").encode()
+            # one model line per stored signature for the tree as it is, plus one for the stale-listing view where that differs
+            qs = [l[3] for l in sample] + [l[5] for l in sample if l[5]]
+            data = ("\n".join(qs) + "\n").encode()
             p = subprocess.run(cmd, input=data, stdout=subprocess.PIPE, stderr=subprocess.PIPE, cwd=cwd)
             mout = p.stdout.decode().split("\n")[:-1]
-            if p.returncode != 0 or len(mout) != len(sample):
-                res.mismatches.append({"stream": "c12sig", "input": "model driver exit %d, %d/%d lines" % (p.returncode, len(mout), len(sample)),
+            if p.returncode != 0 or len(mout) != len(qs):
+                res.mismatches.append({"stream": "c12sig", "input": "model driver exit %d, %d/%d lines" % (p.returncode, len(mout), len(qs)),
                                        "model": p.stderr.decode()[-300:]})
             else:
-                bad = 0
-                for (hid, idx, b, line, impl), m in zip(sample, mout):
-                    want = dict(kv.split("=") for kv in m.split(" ") if "=" in kv).get("struct" if VARIANTS[idx][3] else "tree")
-                    if want != impl:
-                        bad += 1
-                        if bad <= 10:
-                            res.mismatches.append({"stream": "c12sig", "input": "history %d build %d variant %s: %s" % (hid, b, VARIANTS[idx][1], line[:400]),
-                                                   "model": m, "impl": impl})
+                bad = stale = 0
+                tool_out = iter(mout[len(sample):])
+                for (hid, idx, b, line, impl, tline, base, inp), m in zip(sample, mout):
+                    field = "struct" if VARIANTS[idx][3] else "tree"
+                    want = dict(kv.split("=") for kv in m.split(" ") if "=" in kv).get(field)
+                    twant = dict(kv.split("=") for kv in next(tool_out).split(" ") if "=" in kv).get(field) if tline else None
+                    if want == impl:
+                        continue
+                    if tline and twant == impl:
+                        # the stored signature is the model's signature of the STALE view (F57), not of the tree as it is
+                        stale += 1
+                        res.oracle_failures.append(dict(base, kind="stale-filtered-listing", effect="stale-signature", input=inp,
+                                                        what="the signature stored for %s is that of a stale filtered listing (%s), "
+                                                             "not of the tree as it is (%s)" % (VARIANTS[idx][1], impl, want)))
+                        continue
+                    bad += 1
+                    if bad <= 10:
+                        res.mismatches.append({"stream": "c12sig", "input": "history %s build %d variant %s: %s" % (hid, b, VARIANTS[idx][1], line[:400]),
+                                               "model": m, "impl": impl})
                 res.distribution["signature_values_compared"] = len(sample)
                 res.distribution["signature_values_differing"] = bad
+                res.distribution["signature_values_of_a_stale_filtered_listing"] = stale
                 res.evaluations += len(sample)
-        res.rule = ("%d seeded histories (random tree, depth<=%d, fan-out<=%d) x %d builds each through the real `llbuild buildsystem build` "
+        # failures the F57 defect model does not explain first (the runner writes replay files for the first five)
+        res.oracle_failures.sort(key=lambda f: f.get("kind") == "stale-filtered-listing")
+        fk = {}
+        for f in res.oracle_failures:
+            k = "%s/%s/%s/%s/%s" % (f.get("kind"), f.get("effect", "-"), "filtered" if f.get("filtered") else "unfiltered", f.get("variant"), f.get("fs_mode"))
+            fk[k] = fk.get(k, 0) + 1
+        res.distribution["oracle_failures_by_kind/effect/filtered/variant/fs_mode"] = fk
+        res.rule = ("%d + %d seeded histories (random tree, depth<=%d, fan-out<=%d) x %d builds each through the real `llbuild buildsystem build` "
                     "(new process per build, database reused), four directory inputs per build (tree/structure x unfiltered/filtered); "
-                    "between builds: null rebuild (10%%), one edit (60%%) or 2-4 edits (30%%) drawn from add file/dir, remove, rename, move, retype, "
-                    "content, mtime bump, chmod, symlink retarget at any depth.  Oracle per (build, variant): rerun iff observation changed.  "
-                    "Non-trivial = builds x variants in which a rerun was expected.  Every stored root signature is compared bit-for-bit with the Lean model."
-                    % (nh, depth, fan, nb))
+                    "between builds: null rebuild (10%%), one edit (60%%) or 2-4 edits (30%%).  First stream (file-system default): add file/dir, remove, "
+                    "rename, move, retype, content, mtime bump, chmod, symlink retarget at any depth, directories re-stamped when their entry set changes.  "
+                    "Second stream (file-system default / checksum-only / device-agnostic = 2:2:1): half of the edits are add file/dir, remove, rename, move "
+                    "that RESTORE the directory's mtime, 10%% same-size content rewrites (mtime new or kept), the rest as in the first stream.  "
+                    "Plus the scripted histories of corpus/C12.  Oracle per (build, variant): rerun iff observation changed.  "
+                    "Non-trivial = builds x variants in which a rerun was expected.  Every stored root signature is compared bit-for-bit with the Lean model%s."
+                    % (nh, ns, depth, fan, nb, "" if MODEL_HAS_CHECKSUM else " (not in checksum-only workspaces: the model's stat record has no checksum field)"))
         res.samples.append({"history0": [[e, r] for e, r in outs[0]["builds"]][:4]})
-        if not res.oracle_failures and not res.mismatches:
+        if outs_s:
+            res.samples.append({"history_s0": [[e, r] for e, r in outs_s[0]["builds"]][:4], "fs_mode": outs_s[0]["fs_mode"]})
+        if all(f.get("kind") == "stale-filtered-listing" for f in res.oracle_failures) and not res.mismatches:
             shutil.rmtree(scratch, ignore_errors=True)
 
     def search(self, ctx, res, why):
